@@ -126,6 +126,7 @@ func runCase(id int, d Defaults, c *Case) {
 	defer os.Chdir(cwd)
 	args := append(append([]string(nil), c.Flags...), c.Args...)
 	run := runPipeline(d, args)
+	run.umAll = unionMeta(c)
 
 	var fileParts []string
 	for _, f := range c.Files {
@@ -192,8 +193,8 @@ func runCase(id int, d Defaults, c *Case) {
 		}
 		rawFields = fmt.Sprintf("rawok=1 specs=%s raw=%s pn=%s", specs, encRaw(run.raws), pn)
 	}
-	hx.Printf("%s %s %s um=%s tidy=%s X=%s sum=%s cmp=%s gm=%s tag=%s\n",
-		head, streamFields, rawFields, um, tidy, ax, asum, acmp, agm, sortedTags(c))
+	hx.Printf("%s %s %s umall=%s um=%s tidy=%s X=%s sum=%s cmp=%s gm=%s tag=%s\n",
+		head, streamFields, rawFields, encUnionMeta(run.umAll), um, tidy, ax, asum, acmp, agm, sortedTags(c))
 
 	// ------------------------------------------------------------ obs: what the real code built
 	keyok := !(s.T.bad || s.R.bad || s.C.bad || s.Z.bad) && tok && rok && cok
@@ -220,7 +221,7 @@ func runCase(id int, d Defaults, c *Case) {
 	}
 	for ti, tab := range run.tables.Tables {
 		tid := s.T.id(run.tables.Keys[ti], s.TF)
-		_, an := assumeOf(run, tab.Unit)
+		an := ""
 		if tab.Assumption.SummaryLabel() == "exact" {
 			an = "e"
 		} else if tab.Assumption.SummaryLabel() == "median" {
@@ -271,11 +272,19 @@ func runCase(id int, d Defaults, c *Case) {
 	}
 
 	// ------------------------------------------------------------ sobs: the implementation in spec vocabulary
-	var cellParts, reswParts, gmParts []string
+	var cellParts, reswParts, gmParts, asParts []string
 	statBad := ""
 	for ti, tab := range run.tables.Tables {
 		tid := s.T.id(run.tables.Keys[ti], s.TF)
 		as, _ := assumeOf(run, tab.Unit)
+		switch tab.Assumption.SummaryLabel() {
+		case "exact":
+			asParts = append(asParts, fmt.Sprintf("%d=e", tid))
+		case "median":
+			asParts = append(asParts, fmt.Sprintf("%d=n", tid))
+		default:
+			asParts = append(asParts, fmt.Sprintf("%d=?", tid))
+		}
 		baseCol := tab.Cols[0]
 		for k, cell := range tab.Cells {
 			r, cc := s.R.id(k.Row, s.RF), s.C.id(k.Col, s.CF)
@@ -372,7 +381,7 @@ func runCase(id int, d Defaults, c *Case) {
 		return strings.Join(ps, "|")
 	}
 	if prop == "C14" {
-		hx.Printf("sobs %d cells=%s resw=%s gmw=%s stats=%s bin=%s\n", id, sortJoin(cellParts), sortJoin(reswParts), sortJoin(gmParts), statBad, binState)
+		hx.Printf("sobs %d cells=%s resw=%s gmw=%s assume=%s stats=%s bin=%s\n", id, sortJoin(cellParts), sortJoin(reswParts), sortJoin(gmParts), sortJoin(asParts), statBad, binState)
 	} else {
 		schedCase(id, dir, c, args, run)
 	}
